@@ -77,19 +77,25 @@ class Engine:
                 stack.extend(x.children())
         return acc
 
-    def _slice(self, cond):
+    def _slice(self, cond, depth=None):
+        """constraints in the cone of influence of cond (depth-limited closure if depth is given);
+        any subset of the path condition is sound for an unsat verdict"""
         while len(self._pcvars) < len(self.pc):
             self._pcvars.append(self._vars(self.pc[len(self._pcvars)]))
         need = self._vars(cond)
         chosen = set()
         changed = True
-        while changed:
+        rounds = 0
+        while changed and (depth is None or rounds < depth):
             changed = False
+            rounds += 1
+            add = set()
             for i, vs in enumerate(self._pcvars):
                 if i not in chosen and vs & need:
                     chosen.add(i)
-                    need |= vs
+                    add |= vs
                     changed = True
+            need |= add
         return [self.pc[i] for i in sorted(chosen)]
 
     def check_sliced(self, cond, timeout_ms=None):
